@@ -179,6 +179,10 @@ func (e *executableWorkflow) Execute(ctx context.Context, serializedInput any) (
 		e.logger.Debugf("Launching step %s...", stepID)
 		runningStep, err := runnableStep.Start(e.stepRunData[stepID], stepID, stageHandler)
 		if err != nil {
+			// Release the lock and shut down the steps that were launched already,
+			// otherwise they would be left running (blocked on the lock) forever.
+			l.lock.Unlock()
+			l.terminateAllSteps()
 			return "", nil, fmt.Errorf("failed to launch step %s (%w)", stepID, err)
 		}
 		l.runningSteps[stepID] = runningStep
